@@ -250,6 +250,63 @@ pub fn check(thorough: bool, _seed: u64) -> Check {
         let v6 = shapes(&[1.0, 2.0, 3.0, 4.0, 5.0, 6.0], 6).into_iter().filter(|e| e.len() == 6 || e.len() <= 2).collect();
         phases.push(sym_phase("provenance-6-pieces", v6, json!({"operands": "pairs among end lists of length 6 and length 1..2 over {1..6}"}), false));
     }
+    // the merges after a *rejected* call on the same thread: a documented rejection (NaN breakpoint) may panic, but it must not
+    // leave anything behind that changes the next well-formed merge
+    let small = Arc::new(shapes(&[1.0, 2.0, 3.0], 3));
+    let nsm = small.len();
+    let after_reject = Phase {
+        name: "after-a-rejected-merge",
+        units: nsm * 2,
+        split: 0,
+        body: Box::new(move |unit, cx| {
+            let fe = &small[unit / 2];
+            let sub = unit % 2 == 1;
+            let ge = cx.pick(&small[..]).clone();
+            // the rejected call: one of the operands gets a NaN breakpoint at position p; the panic (if any) is caught
+            let which = cx.choose(3);
+            let mut bad = sym_pw(&[1.0, 1.5, 2.5, 4.0]);
+            let p = cx.choose(4);
+            bad.segments[p].end = f64::NAN;
+            let good = sym_pw(&[0.5, 1.5, 3.0]);
+            let _ = match which {
+                0 => guard(|| (&bad + &good).segments.len()),
+                1 => guard(|| (&good - &bad).segments.len()),
+                _ => guard(|| (&bad - &bad).segments.len()),
+            };
+            let f = sym_pw(fe);
+            let g = sym_pw(&ge);
+            let res = guard(|| if sub { &f - &g } else { &f + &g });
+            cx.evals(2);
+            cx.nontrivial();
+            let op = if sub { "-" } else { "+" };
+            let detail = |obs: serde_json::Value| json!({"preceded_by": "a merge with a NaN breakpoint (documented rejection, caught)", "f_ends": fjs(fe), "g_ends": fjs(&ge), "op": op, "observation": obs});
+            if cx.sampling() {
+                cx.sample(detail(json!("sample")));
+            }
+            let res = match res {
+                Ok(r) => r,
+                Err(pn) => return Err(Fail::new(format!("piecewise {op} panicked on well-formed operands after an earlier rejected call: {pn}"), detail(json!(pn)))),
+            };
+            let re: Vec<f64> = res.segments.iter().map(|s| s.end).collect();
+            if let Err(e) = wellformed(&re, fe, &ge) {
+                return Err(Fail::new(format!("piecewise {op} after an earlier rejected call: {e}"), detail(json!({"result_ends": fjs(&re)}))));
+            }
+            let mut all = fe.clone();
+            all.extend(ge.iter());
+            for x in order_alphabet(&all) {
+                let got = res.segments[ref_index(&re, x)].poly;
+                let gi = ref_index(&ge, x) as i32 + 1;
+                let want = Sym { l: ref_index(fe, x) as i32 + 1, r: if sub { -gi } else { gi } };
+                if got != want {
+                    return Err(Fail::new(format!("piecewise {op} combines the wrong pieces at x after an earlier rejected call on the same thread"), detail(json!({"x": fj(x), "result_ends": fjs(&re)}))));
+                }
+            }
+            Ok(())
+        }),
+        classes: vec![],
+        bounds: json!({"sequence": "a + / - with a NaN breakpoint at every position of a 4-piece operand (caught), then every well-formed merge of end lists of length 1..3 over {1,2,3}, checked at every x of A(ends)"}),
+    };
+    phases.push(after_reject);
     Check {
         id: "C13",
         rule: "choice tree: (left shape, operator) unit x right shape x query; pieces are symbolic provenance values so the result records which piece of f and of g were combined; each leaf is one (f, g, op, x) run on the real operators; non-trivial = operands with different end lists".into(),
